@@ -8,3 +8,22 @@ claim("C12",
       "Generated-input search: shows byte-identical output on every generated (program, options, history, hash seed) explored; cannot show absence of a dependence that needs an untried seed or history.",
       "Trusts Python's PYTHONHASHSEED as the only source of cross-process iteration-order variation; seeds are sampled (8 quick / 64 thorough).",
       "DESIGN.md section 6, C12")
+
+IMG_NOTE = ("Trusts the format readings of DESIGN.md appendix E (validated by round trips against the shipped decoders), the "
+            "transcribed MGE composite table and MAX mode tables, and the 110-line Netpbm/PNG readers in vf/img/readers.py.")
+claim("C16",
+      "round-trip PBT: Hypothesis-generated images -> independent reference encoder -> real decoder -> independent PPM/PGM/PNG reader, every sample compared; exhaustive palette-slot x colour-code sweeps",
+      "Generated-input search over pixel content, palettes, header variants and pixel modes with a sample-exact oracle; the HRS palette sweep (16 slots x 64 codes) is enumerated completely on every run, the MGE/CM3/VEF sweeps in the thorough tier.",
+      IMG_NOTE, "DESIGN.md section 6, C16")
+claim("C17",
+      "round-trip PBT with nondeterministic reference encoders (every run-length / literal / copy decision drawn) + differential against the uncompressed twin",
+      "Generated-input search over images and over the valid encodings of each image; oracle is sample-exact equality with the source image and with the decoding of the uncompressed form.",
+      IMG_NOTE + " The RAT right-pixel mask is an open finding (pinned by the stored fixture); RAT right pixels are kept in 0-7 while it is open.", "DESIGN.md section 6, C17")
+claim("C18",
+      "PBT over option values and I/O variants with a completeness oracle (independent reader), metamorphic skip-vs-strip and stream-vs-file relations, real OS pipes",
+      "Generated-input search over widths, heights, skips, MAX length fields / Newsroom headers / pixel modes and file-vs-stream variants; checks header dimensions, exact sample count, skip equivalence and byte equality between stream and file output.",
+      IMG_NOTE + " Odd HRS widths and MAX widths not divisible by 8 are open findings and excluded while open.", "DESIGN.md section 6, C18")
+claim("C19",
+      "fault-injection fuzzing: exhaustive prefixes of small valid files, Hypothesis-drawn truncations / single-byte corruptions / appended garbage / random byte strings, oracle 'reported failure or complete image'",
+      "Generated and enumerated faults against the real decoders; every success is re-read with the independent reader and must be a complete image; seven recorded findings are recognised from the input by a format-grammar classifier (vf/img/wellformed.py), anything else is a violation.",
+      IMG_NOTE + " 'never hangs' is judged with a 30 s / 120 s limit against a normal cost below 0.6 s.", "DESIGN.md section 6, C19")
